@@ -1,0 +1,87 @@
+//go:build verif
+// +build verif
+
+package storage
+
+import (
+	"time"
+
+	"github.com/pyroscope-io/pyroscope/pkg/storage/cache"
+)
+
+// Verification hooks (build tag "verif"). Add-only; not compiled into normal builds.
+
+// VerifSetIntervals sets the periods of the background tasks. Call before New.
+// A zero value leaves the corresponding interval unchanged.
+func VerifSetIntervals(evict, writeBack, retention, gc time.Duration) {
+	if evict != 0 {
+		evictInterval = evict
+	}
+	if writeBack != 0 {
+		writeBackInterval = writeBack
+	}
+	if retention != 0 {
+		retentionInterval = retention
+	}
+	if gc != 0 {
+		gcInterval = gc
+	}
+}
+
+// VerifDisablePeriodicTasks makes the background tasks fire practically never. Call before New.
+func VerifDisablePeriodicTasks() {
+	VerifSetIntervals(1000*time.Hour, 1000*time.Hour, 1000*time.Hour, 1000*time.Hour)
+}
+
+// VerifCache returns one of the four caches: "dimensions", "segments", "dicts", "trees".
+func (s *Storage) VerifCache(name string) *cache.Cache {
+	switch name {
+	case "dimensions":
+		return s.dimensions
+	case "segments":
+		return s.segments
+	case "dicts":
+		return s.dicts
+	case "trees":
+		return s.trees
+	}
+	return nil
+}
+
+// VerifWrapCaches installs the barrier/gate wrapper on all four caches. Call right after New.
+func (s *Storage) VerifWrapCaches(gate func(cacheName, key string)) {
+	for _, n := range []string{"dimensions", "segments", "dicts", "trees"} {
+		name := n
+		var g func(string)
+		if gate != nil {
+			g = func(k string) { gate(name, k) }
+		}
+		s.VerifCache(name).VerifWrap(g)
+	}
+}
+
+// VerifEvict evicts the given fraction of one cache and waits until the saves are on disk.
+// Requires VerifWrapCaches.
+func (s *Storage) VerifEvict(name string, fraction float64) {
+	c := s.VerifCache(name)
+	c.Evict(fraction)
+	c.VerifEvictionBarrier()
+}
+
+// VerifWriteBack runs the write-back task once and waits for the saves.
+func (s *Storage) VerifWriteBack() {
+	s.writeBackTask()
+	for _, n := range []string{"dimensions", "segments", "dicts", "trees"} {
+		s.VerifCache(n).VerifBarrier()
+	}
+}
+
+// VerifRetentionTask runs the retention task once (threshold = now - config.Retention).
+func (s *Storage) VerifRetentionTask() {
+	s.retentionTask()
+}
+
+// VerifEvictionTask runs the memory-pressure eviction task once with the given memTotal.
+func (s *Storage) VerifEvictionTask(memTotal uint64) {
+	s.evictionTask(memTotal)()
+}
